@@ -288,7 +288,16 @@ fn odd_content(t: &mut crate::supply::SupplyTrace, r: &mut Rng) -> String {
             }
             let fi = r.idx(nfiles);
             let pre = r.idx(8);
-            let id = format!("{}\u{e9}{}", "a".repeat(pre), "b".repeat(64 - pre - 2));
+            let id = match r.below(3) {
+                0 => format!("{}\u{e9}{}", "a".repeat(pre), "b".repeat(64 - pre - 2)),
+                // other lengths than 64, other letter case
+                1 => r.pick(&["", "a", "abc", "1234567", "12345678", "123456789", "\u{e9}\u{e9}\u{e9}", "\u{20ac}\u{20ac}"]).to_string(),
+                _ => match r.below(3) {
+                    0 => "c".repeat(63),
+                    1 => "d".repeat(65),
+                    _ => "ABCDEF0123456789".repeat(4),
+                },
+            };
             let doc = match &mut t.root.files[fi].body {
                 Body::Link(_) => &mut t.root.files[fi].doc,
                 Body::Layout(inner) => &mut inner.doc,
@@ -369,6 +378,17 @@ fn odd_content(t: &mut crate::supply::SupplyTrace, r: &mut Rng) -> String {
             t.root.files.clear();
             if r.chance(1, 2) {
                 t.root.layout.key_table.clear();
+            }
+            if r.chance(1, 2) {
+                // no steps, but an inspection that succeeds
+                t.root.layout.inspect = vec![InspSpec {
+                    name: "lone".into(),
+                    exp_mat: vec![],
+                    exp_prod: if r.chance(1, 2) { vec![] } else { vec![vec!["ALLOW".into(), "*".into()]] },
+                    actor: ActorScript { id: "root#lone".into(), ops: vec![], stdout: vec![], stderr: vec![], exit: ExitSpec::Code(0) },
+                }];
+            } else {
+                t.root.layout.inspect.clear();
             }
             "ODD-EMPTY-LAYOUT".into()
         }
